@@ -37,8 +37,11 @@ Three judges:
               AND through the attribute interface, at any depth, inside tuples and keyed containers) is visible from no
               other; reset_<a> / del / reset install a value equal to a new instance's and sharing nothing
 """
+import collections
 import copy
 import functools
+import threading
+import types
 import warnings
 
 import heap_common as H
@@ -46,7 +49,15 @@ import heap_common as H
 VALUE_KINDS = (
     "list_int", "list_list", "list_spec", "dict_int", "dict_list", "dict_spec", "set_int",
     "klist_str", "klist_spec", "kset_int", "kset_spec", "tuple_imm", "tuple_list", "tuple_spec", "child", "fchild", "list_fspec",
+    # round 5: values reachable only through tuples / frozensets / named tuples / plain objects / containers of containers,
+    # a mutable leaf that is no container (bytearray), and `Any`-typed kinds (the only ones that can hold an uncopyable
+    # member: a lock, a generator, an object whose __deepcopy__ raises)
+    "tuple_pair", "tuple_dict", "tuple_nest", "list_tuple", "dict_tuple", "list_dict", "dict_set", "fset_box", "box", "ntuple",
+    "bytearray", "any", "list_any", "dict_any", "set_any", "tuple_any",
 )
+ANY_KINDS = ("any", "list_any", "dict_any", "set_any", "tuple_any")  # kinds whose `vals` / `kvals` can hold an uncopyable member
+UNC_WHERE = ("scratch", "vals", "kvals")  # where the uncopyable member of a state sits (`scratch`: any kind; else ANY_KINDS)
+UNC_WHAT = ("lock", "gen", "raiser")
 SHAPES = ("base", "lazy", "sub", "plain")
 INVS = ("none", "named", "star_prop", "star_attr", "star_only")
 MODES = ("ctor", "inplace", "cow")
@@ -101,10 +112,57 @@ def _children():
     return _CLASSES["Child"], _CLASSES["KChild"]
 
 
+class Box:
+    """A plain (not spec) object: hashable by identity, mutable through `items`."""
+
+    def __init__(self, items):
+        self.items = items
+
+    def __repr__(self):
+        return f"Box({self.items!r})"
+
+
+NT = collections.namedtuple("NT", ["label", "items"])
+
+
+class Raiser:
+    """An object that refuses to be copied with an error of its own (not the TypeError of pickling)."""
+
+    def __deepcopy__(self, memo):
+        raise RuntimeError("this object cannot be copied")
+
+
+def uncopyable(what):
+    """A new object `copy.deepcopy` fails on."""
+    if what == "lock":
+        return threading.Lock()
+    if what == "gen":
+        return (i for i in ())
+    if what == "raiser":
+        return Raiser()
+    raise ValueError(what)
+
+
+def is_uncopyable(o):
+    return isinstance(o, (Raiser, type(threading.Lock()), types.GeneratorType))
+
+
+class RegKey:
+    """What a scenario hands to a helper of a `hooks` family instead of a value: the preparer hook of the class
+    (`_prepare_<attr>` / `_prepare_<item>`) looks it up in the family's registry and returns the PRE-EXISTING object
+    registered there (`boom`: the hook raises)."""
+
+    def __init__(self, name):
+        self.name = name
+
+    def __repr__(self):
+        return f"RegKey({self.name!r})"
+
+
 def value_kind(vk):
     """-> dict: ann (annotation), mk(n, t) (a new value with n elements, contents tagged by t), coll (None | 'seq' |
     'map' | 'set'), item(t) (a new item), spec_items (items / the value itself are spec instances), keyed"""
-    from typing import Dict, List, Set, Tuple
+    from typing import Any, Dict, FrozenSet, List, Set, Tuple
 
     from spec_classes.types import KeyedList, KeyedSet
 
@@ -131,6 +189,23 @@ def value_kind(vk):
         "child": (Child, lambda n, t: Child(xs=[t * 10 + i for i in range(n)], tag=f"c{t}"), None, None, True),
         "fchild": (FChild, lambda n, t: FChild(xs=[t * 10 + i for i in range(n)], tag=f"c{t}"), None, None, True),
         "list_fspec": (List[FChild], lambda n, t: [fc(t, i) for i in range(n)], "seq", lambda t: fc(t, 7), True),
+        # ---- round 5
+        "tuple_pair": (Tuple[str, List[int]], lambda n, t: (f"s{t}", [t * 10 + i for i in range(n)]), None, None, False),
+        "tuple_dict": (Tuple[Dict[str, int], ...], lambda n, t: tuple({"k": t * 10 + i} for i in range(n)), None, None, False),
+        "tuple_nest": (Tuple[Tuple[List[int], ...], ...], lambda n, t: tuple(([t * 10 + i],) for i in range(n)), None, None, False),
+        "list_tuple": (List[Tuple[int, List[int]]], lambda n, t: [(i, [t * 10 + i]) for i in range(n)], "seq", lambda t: (7, [t * 10 + 7]), False),
+        "dict_tuple": (Dict[str, Tuple[List[int], ...]], lambda n, t: {f"k{i}": ([t * 10 + i],) for i in range(n)}, "map", lambda t: ([t * 10 + 7],), False),
+        "list_dict": (List[Dict[str, int]], lambda n, t: [{"k": t * 10 + i} for i in range(n)], "seq", lambda t: {"k": t * 10 + 7}, False),
+        "dict_set": (Dict[str, Set[int]], lambda n, t: {f"k{i}": {t * 10 + i} for i in range(n)}, "map", lambda t: {t * 10 + 7}, False),
+        "fset_box": (FrozenSet[Box], lambda n, t: frozenset(Box([t * 10 + i]) for i in range(n)), None, None, False),
+        "box": (Box, lambda n, t: Box([t * 10 + i for i in range(n)]), None, None, False),
+        "ntuple": (NT, lambda n, t: NT(f"s{t}", [t * 10 + i for i in range(n)]), None, None, False),
+        "bytearray": (bytearray, lambda n, t: bytearray([t % 200 + i for i in range(n)]), None, None, False),
+        "any": (Any, lambda n, t: (f"s{t}", [t * 10 + i for i in range(n)], {"k": [t]}), None, None, False),
+        "list_any": (List[Any], lambda n, t: [t * 10 + i for i in range(n)], "seq", lambda t: [t * 10 + 7], False),
+        "dict_any": (Dict[str, Any], lambda n, t: {f"k{i}": [t * 10 + i] for i in range(n)}, "map", lambda t: [t * 10 + 7], False),
+        "set_any": (Set[Any], lambda n, t: {t * 10 + i for i in range(n)}, "set", lambda t: t * 10 + 7, False),
+        "tuple_any": (Tuple[Any, ...], lambda n, t: tuple([t * 10 + i] for i in range(n)), None, None, False),
     }
     ann, mk, coll, item, spec_items = table[vk]
     return {"ann": ann, "mk": mk, "coll": coll, "item": item, "spec_items": spec_items, "keyed": vk.startswith("k")}
@@ -176,8 +251,44 @@ class M:
     @pr.setter
     def pr(self, v):
         self._pr = v
-{SUMMARY}
+{SUMMARY}{HOOKS}
 '''
+
+# preparer hooks of the `hooks` families: attribute preparers of a plain slot without default, of a slot with an
+# `Attr(default=)` and of the overridable property; item preparers of a plain, a default_factory and the do_not_copy slot.
+# `lookup` hands out the PRE-EXISTING object registered under the key (aliasing introduced by a user hook).
+_HOOKS_SRC = '''
+    def _prepare_vals(self, value):
+        return lookup(value)
+
+    def _prepare_avals(self, value):
+        return lookup(value)
+
+    def _prepare_over(self, value):
+        return lookup(value)
+
+    def _prepare_val(self, value):
+        return lookup(value)
+
+    def _prepare_fval(self, value):
+        return lookup(value)
+
+    def _prepare_kval(self, value):
+        return lookup(value)
+'''
+
+_OUTER_HOOKS_SRC = '''
+    def _prepare_inner(self, value):
+        return lookup(value)
+
+    def _prepare_member(self, value):
+        return lookup(value)
+
+    def _prepare_table_item(self, value):
+        return lookup(value)
+'''
+HOOK_SLOTS = ("vals", "avals", "over")  # slots with an attribute preparer
+HOOK_ITEM_SLOTS = ("vals", "fvals", "kvals")  # slots with an item preparer
 
 _SUMMARY_SRC = '''
     @spec_property(cache=True, invalidated_by="*")
@@ -205,17 +316,19 @@ class Outer:
     inner: LEAF
     members: List[LEAF]
     table: Dict[str, LEAF]
-
+{OHOOKS}
 @spec_class(bootstrap=True)
 class OuterN:
     name: str = ""
     inner: LEAF
     members: List[LEAF]
     table: Dict[str, LEAF]
+{OHOOKS}
 '''
 
 
-def _subst(src, shape, frozen, inv):
+def _subst(src, shape, frozen, inv, hooks=False):
+    src = src.replace("{HOOKS}", _HOOKS_SRC if hooks else "").replace("{OHOOKS}", _OUTER_HOOKS_SRC if hooks else "")
     kw = [] if shape == "lazy" else ["bootstrap=True"]
     okw = ["bootstrap=True"]
     if frozen:
@@ -240,8 +353,19 @@ def _declare(classes, outer=False):
         H.DECLARED_ATTR_DNC[k] = {a: (a == "kvals" and not outer) for a in k.__spec_class__.attrs}
 
 
-def _family_ns(vk, shape, frozen, inv):
-    key = ("ns", vk, "lazy" if shape == "lazy" else "eager", bool(frozen), inv)
+def _lookup_in(registry):
+    def lookup(value):
+        if isinstance(value, RegKey):
+            if value.name == "boom":
+                raise Boom("preparer failure")
+            return registry[value.name]
+        return value
+
+    return lookup
+
+
+def _family_ns(vk, shape, frozen, inv, hooks=False):
+    key = ("ns", vk, "lazy" if shape == "lazy" else "eager", bool(frozen), inv) + (("hooks",) if hooks else ())
     if key not in _CLASSES:
         from typing import Dict, List, Tuple
 
@@ -255,21 +379,28 @@ def _family_ns(vk, shape, frozen, inv):
             "Tuple": Tuple, "T": kind["ann"], "mk": mk, "__kind__": kind,
             "D1": mk(2, 1), "D2": mk(2, 2), "D6": mk(2, 6), "D9": mk(2, 9), "D10": mk(2, 10),
         }
-        exec(compile(_subst(_M_SRC, shape, frozen, inv), "<heapshapes>", "exec", dont_inherit=True), ns)
+        if hooks:
+            # the registry of pre-existing objects the hooks hand out: a whole value, an item (collection kinds), and --
+            # filled in when an outer class is built -- an instance of the family's leaf class
+            ns["__registry__"] = {"value": mk(2, 50)}
+            if kind["item"] is not None:
+                ns["__registry__"]["item"] = kind["item"](51)
+            ns["lookup"] = _lookup_in(ns["__registry__"])
+        exec(compile(_subst(_M_SRC, shape, frozen, inv, hooks), "<heapshapes>", "exec", dont_inherit=True), ns)
         _declare([ns["M"]])
         _CLASSES[key] = ns
     return _CLASSES[key]
 
 
-def family(vk, shape, frozen, inv, outer=False):
+def family(vk, shape, frozen, inv, outer=False, hooks=False):
     # -> (cls, Outer or None, kind); the classes of a family are built on first use, once per process: M for every
     # shape, S / P for the subclass shapes, Outer / OuterN (the never-frozen outer class) when a holder is asked for.
-    key = (vk, shape, bool(frozen), inv)
-    ns = _family_ns(vk, shape, frozen, inv)
+    key = (vk, shape, bool(frozen), inv) + (("hooks",) if hooks else ())
+    ns = _family_ns(vk, shape, frozen, inv, hooks)
     if key not in _CLASSES:
         if shape in _LEAF_SRC:
             sub = dict(ns)
-            exec(compile(_subst(_LEAF_SRC[shape], shape, frozen, inv), "<heapshapes>", "exec", dont_inherit=True), sub)
+            exec(compile(_subst(_LEAF_SRC[shape], shape, frozen, inv, hooks), "<heapshapes>", "exec", dont_inherit=True), sub)
             cls = sub["S" if shape == "sub" else "P"]
             _declare([cls])
         else:
@@ -282,16 +413,45 @@ def family(vk, shape, frozen, inv, outer=False):
         if okey not in _CLASSES:
             sub = dict(ns)
             sub[{"base": "M", "lazy": "M", "sub": "S", "plain": "P"}[shape]] = cls
-            exec(compile(_subst(_OUTER_SRC, shape, frozen, inv), "<heapshapes>", "exec", dont_inherit=True), sub)
+            exec(compile(_subst(_OUTER_SRC, shape, frozen, inv, hooks), "<heapshapes>", "exec", dont_inherit=True), sub)
             _declare([sub["Outer"], sub["OuterN"]], outer=True)
             sub["Outer"].__verif_plain_outer__ = sub["OuterN"]
             _CLASSES[okey] = sub["Outer"]
+            if hooks:  # a pre-existing instance of the leaf class for the outer hooks to hand out
+                ns["__registry__"]["inst"] = make_receiver(
+                    {"vk": vk, "shape": shape, "frozen": bool(frozen), "inv": inv, "hooks": True, "n": 2, "mode": "ctor", "mat": [], "gen": 0,
+                     "warm": False, "holder": "self", "route": "-"}, salt=4)
         Outer = _CLASSES[okey]
     return cls, Outer, ns["__kind__"]
 
 
 def family_of(sc):
-    return family(sc["vk"], sc["shape"], sc["frozen"], sc["inv"], outer=sc.get("holder", "self") != "self")
+    return family(sc["vk"], sc["shape"], sc["frozen"], sc["inv"], outer=sc.get("holder", "self") != "self", hooks=bool(sc.get("hooks")))
+
+
+def rebuild_registry(sc):
+    """New registered objects for the scenario's family (after a run that may have left them half-edited: crash points)."""
+    if not sc.get("hooks"):
+        return
+    family_of(sc)
+    ns = _family_ns(sc["vk"], sc["shape"], sc["frozen"], sc["inv"], True)
+    kind = ns["__kind__"]
+    reg = ns["__registry__"]
+    reg["value"] = kind["mk"](2, 50)
+    if kind["item"] is not None:
+        reg["item"] = kind["item"](51)
+    if "inst" in reg:
+        reg["inst"] = make_receiver(
+            {"vk": sc["vk"], "shape": sc["shape"], "frozen": bool(sc["frozen"]), "inv": sc["inv"], "hooks": True, "n": 2, "mode": "ctor", "mat": [],
+             "gen": 0, "warm": False, "holder": "self", "route": "-"}, salt=4)
+
+
+def registry_of(sc):
+    """name -> pre-existing object the hooks of the scenario's family hand out ({} for a family without hooks)."""
+    if not sc.get("hooks"):
+        return {}
+    family_of(sc)
+    return _family_ns(sc["vk"], sc["shape"], sc["frozen"], sc["inv"], True)["__registry__"]
 
 
 # ---------------------------------------------------------------------------
@@ -327,6 +487,15 @@ def _is_inst(obj):
     return hasattr(type(obj), "__spec_class__") and hasattr(obj, "__dict__")
 
 
+def _is_plain(obj):
+    """A plain Python object with a `__dict__` of its own (a `Box`, a `Raiser`): mutable through its attributes."""
+    return isinstance(obj, (Box, Raiser))
+
+
+def _is_container(v):
+    return isinstance(v, (list, dict, set, tuple, frozenset, bytearray)) or _is_keyed(v) or _is_inst(v) or _is_plain(v)
+
+
 def _read(obj, name):
     try:
         return True, getattr(obj, name)
@@ -335,8 +504,9 @@ def _read(obj, name):
 
 
 def view_ids(obj, out=None, iface=True, depth=0):
-    """id -> object for every MUTABLE object visible from `obj`: through lists, dicts, sets, tuples, keyed containers
-    (item sequence and key index), instance `__dict__`s and (iface=True) the attribute interface of spec instances.
+    """id -> object for every MUTABLE object visible from `obj`: through lists, dicts, sets, tuples (named tuples
+    included), frozensets, keyed containers (item sequence and key index), plain objects, instance `__dict__`s and
+    (iface=True) the attribute interface of spec instances; bytearrays are mutable leaves.
     Everything visited is kept alive by `out["__keep__"]` so that ids cannot be re-used while sides are compared."""
     if out is None:
         out = {}
@@ -347,7 +517,7 @@ def view_ids(obj, out=None, iface=True, depth=0):
         out[id(obj)] = obj
         for x in obj:
             view_ids(x, out, iface, depth + 1)
-    elif t is tuple or t is frozenset:
+    elif isinstance(obj, (tuple, frozenset)):
         out.setdefault("__keep__", []).append(obj)
         for x in obj:
             view_ids(x, out, iface, depth + 1)
@@ -356,6 +526,10 @@ def view_ids(obj, out=None, iface=True, depth=0):
         for x in list(obj.values()):
             view_ids(x, out, iface, depth + 1)
     elif t is set:
+        out[id(obj)] = obj
+        for x in list(obj):
+            view_ids(x, out, iface, depth + 1)
+    elif t is bytearray:
         out[id(obj)] = obj
     elif _is_keyed(obj):
         out[id(obj)] = obj
@@ -373,6 +547,10 @@ def view_ids(obj, out=None, iface=True, depth=0):
                 ok, v = _read(obj, name)
                 if ok:
                     view_ids(v, out, iface, depth + 1)
+    elif _is_plain(obj):
+        out[id(obj)] = obj
+        for x in list(obj.__dict__.values()):
+            view_ids(x, out, iface, depth + 1)
     return out
 
 
@@ -389,12 +567,14 @@ def view_content(obj, depth=0):
     t = type(obj)
     if t is list:
         return ["list"] + [view_content(x, depth + 1) for x in obj]
-    if t is tuple:
-        return ["tuple"] + [view_content(x, depth + 1) for x in obj]
+    if isinstance(obj, tuple):
+        return [t.__name__] + [view_content(x, depth + 1) for x in obj]
     if t is dict:
         return {"dict": [(k, view_content(v, depth + 1)) for k, v in obj.items()]}
     if t is set or t is frozenset:
-        return {t.__name__: sorted(map(repr, obj))}
+        return {t.__name__: sorted((view_content(x, depth + 1) for x in obj), key=repr)}
+    if t is bytearray:
+        return ["bytearray", bytes(obj)]
     if _is_keyed(obj):
         items = obj.__dict__.get("_list")
         return {
@@ -408,15 +588,17 @@ def view_content(obj, depth=0):
             ok, v = _read(obj, name)
             items.append((name, view_content(v, depth + 1) if ok else ("raises", v)))
         return {"inst": t.__name__, "view": sorted(items, key=lambda kv: kv[0])}
+    if _is_plain(obj):
+        return {"obj": t.__name__, "d": sorted((k, view_content(v, depth + 1)) for k, v in obj.__dict__.items())}
     if obj is H.missing():
         return "MISSING"
     return repr(t)
 
 
 def snapshot(obj, seen=None):
-    """Content + identity of everything reachable through containers (tuples and keyed containers included) and
-    instance `__dict__`s.  Never calls `getattr` (reading may fill caches).  For a spec instance the entries are
-    reported as a dict so that a judge can tell a cache fill from a change."""
+    """Content + identity of everything reachable through containers (tuples, frozensets, plain objects and keyed
+    containers included) and instance `__dict__`s.  Never calls `getattr` (reading may fill caches).  For a spec instance
+    the entries are reported as a dict so that a judge can tell a cache fill from a change."""
     if seen is None:
         seen = {}
     if isinstance(obj, _SC):
@@ -425,12 +607,14 @@ def snapshot(obj, seen=None):
         return ("ref", id(obj))
     seen[id(obj)] = True
     t = type(obj)
-    if t is list or t is tuple:
+    if t is list or isinstance(obj, tuple):
         return (t.__name__, id(obj), tuple(snapshot(x, seen) for x in obj))
     if t is dict:
         return ("dict", id(obj), tuple((k, snapshot(v, seen)) for k, v in obj.items()))
     if t is set or t is frozenset:
-        return (t.__name__, id(obj), tuple(sorted(map(repr, obj))))
+        return (t.__name__, id(obj), tuple(sorted((snapshot(x, seen) for x in obj), key=repr)))
+    if t is bytearray:
+        return ("bytearray", id(obj), bytes(obj))
     if _is_keyed(obj):
         items = obj.__dict__.get("_list")
         return (
@@ -440,6 +624,8 @@ def snapshot(obj, seen=None):
         )
     if _is_inst(obj):
         return ("inst", id(obj), t.__name__, tuple((k, snapshot(v, seen)) for k, v in sorted(obj.__dict__.items())))
+    if _is_plain(obj):
+        return ("obj", id(obj), t.__name__, tuple((k, snapshot(v, seen)) for k, v in sorted(obj.__dict__.items())))
     return ("opaque", id(obj), t.__name__)
 
 
@@ -457,12 +643,12 @@ def class_roots(cls):
                 fb = getattr(v, "fallback", None)
                 if not isinstance(fb, _SC) and fb is not H.missing():
                     out.append((f"{k.__name__}.{name}.fallback", fb))
-            elif not isinstance(v, _SC) and (type(v) in (list, dict, set, tuple) or _is_keyed(v) or _is_inst(v)):
+            elif not isinstance(v, _SC) and _is_container(v):
                 out.append((f"{k.__name__}.{name}", v))
     meta = getattr(cls, "__spec_class__", None)
     for a, spec in (meta.attrs.items() if meta else ()):
         d = getattr(spec, "default", None)
-        if not isinstance(d, _SC) and d is not H.missing() and (type(d) in (list, dict, set, tuple) or _is_keyed(d) or _is_inst(d)):
+        if not isinstance(d, _SC) and d is not H.missing() and _is_container(d):
             out.append((f"Attr({a}).default", d))
     return out
 
@@ -477,6 +663,9 @@ def probe_mutate(o):
             lst.append(H.PROBE)
             return lambda: (lst.pop(), d.pop(H.PROBE, None))
         return lambda: d.pop(H.PROBE, None)
+    if type(o) is bytearray:
+        o.append(255)
+        return lambda: o.pop()
     return H.probe_mutate(o)
 
 
@@ -491,7 +680,7 @@ class NotApplicable(Exception):
 
 def make_receiver(sc, salt=0, keep=None):
     """An instance of the scenario's class in the scenario's state.  `keep`: dict receiving the objects handed to the
-    constructor (`ctor_args`)."""
+    constructor (`ctor_args`) and the uncopyable member of the state (`unc`)."""
     cls, _Outer, kind = family_of(sc)
     mk = kind["mk"]
     n, mode, mat = sc["n"], sc["mode"], sc["mat"]
@@ -501,6 +690,8 @@ def make_receiver(sc, salt=0, keep=None):
     assigned = [a for a in ("al", "over", "cached") if a in mat and (a != "cached" or "cached_set" in sc.get("flags", ()))]
     tagno = 20 + 20 * salt
     kwargs = {"vals": mk(n, tagno), "pr": mk(n, tagno + 1), "kvals": mk(n, tagno + 2)}
+    if sc.get("absent"):  # `vals` (the slot without default) holds no value
+        del kwargs["vals"]
     values = {}
     for a in assigned:
         tagno += 3
@@ -530,7 +721,35 @@ def make_receiver(sc, salt=0, keep=None):
         obj = (lambda o: o.with_label(o.label + "g"), copy.deepcopy, lambda o: o.update(m=o.m + 1))[g % 3](obj)
     if warm and sc["gen"]:
         _warm(obj, mat)
+    if sc.get("unc"):
+        obj = _add_uncopyable(sc, obj, kind, keep)
     return obj
+
+
+def _add_uncopyable(sc, obj, kind, keep):
+    """The state holds a member `copy.deepcopy` fails on (a lock, a generator, an object whose `__deepcopy__` raises).
+    It gets there the only ways it can: through a copy-on-write helper called while the value is still copyable (a
+    second-generation state), or as an entry nobody declared.  `where`: `scratch` (an undeclared `__dict__` entry
+    `[member]`: every copy of the instance fails), `vals` / `kvals` (inside the value of that slot -- `Any` kinds only;
+    `kvals` is declared do_not_copy, so the instance itself stays copyable)."""
+    where, what = sc["unc"]["where"], sc["unc"].get("what", "lock")
+    u = uncopyable(what)
+    if keep is not None:
+        keep["unc"] = u
+    if where == "scratch":
+        obj.__dict__["scratch_unc"] = [u]
+        return obj
+    if sc["vk"] not in ANY_KINDS:
+        raise NotApplicable("only an Any-typed value can hold an uncopyable member")
+    if sc.get("absent") and where == "vals":
+        raise NotApplicable("`vals` holds no value")
+    it = _singular(where)
+    if kind["coll"] == "map":
+        return getattr(obj, f"with_{it}")("ku", u)
+    if kind["coll"] is not None:
+        return getattr(obj, f"with_{it}")(u)
+    cur = obj.__dict__[where]
+    return getattr(obj, f"with_{where}")(tuple(cur) + (u,))
 
 
 def _warm(obj, mat):
@@ -548,9 +767,20 @@ def make_root(sc, keep=None):
     _cls, Outer, _kind = family_of(sc)
     if sc.get("outer_plain"):  # a never-frozen outer class holding (possibly frozen) instances
         Outer = Outer.__verif_plain_outer__
-    a, b, c = make_receiver(sc, 0), make_receiver(sc, 1), make_receiver(sc, 2)
+    plain = {k: v for k, v in sc.items() if k != "unc"}
+    a, b, c = make_receiver(plain, 0), make_receiver(plain, 1), make_receiver(plain, 2)
     o = Outer(inner=a, members=[b], table={"k": c})
-    return o, {"attr": a, "member": b, "table": c}[holder]
+    target = {"attr": o.__dict__["inner"], "member": o.__dict__["members"][0], "table": o.__dict__["table"]["k"]}[holder]
+    if sc.get("unc"):
+        # (the constructor copies its arguments: the uncopyable member is put into the held instance afterwards, as an
+        # undeclared entry)
+        if sc["unc"]["where"] != "scratch":
+            raise NotApplicable("a held instance gets its uncopyable member as an undeclared entry")
+        u = uncopyable(sc["unc"].get("what", "lock"))
+        if keep is not None:
+            keep["unc"] = u
+        target.__dict__["scratch_unc"] = [u]
+    return o, target
 
 
 # ---------------------------------------------------------------------------
@@ -570,6 +800,7 @@ def _boom(_v):
     raise Boom("callback failure")
 
 
+@functools.lru_cache(maxsize=None)
 def _singular(attr):
     from spec_classes.utils.naming import get_singular_form
 
@@ -701,7 +932,69 @@ def _elem_routes(slot):
             return helper(r, "with")("kbad", bad), []
         return helper(r, "with")(bad), []
 
+    def _hooked(env):
+        if not env["sc"].get("hooks") or slot not in HOOK_ITEM_SLOTS:
+            raise NotApplicable("no item preparer")
+        reg = registry_of(env["sc"])
+        if "item" not in reg:
+            raise NotApplicable("not a collection")
+        return reg["item"]
+
+    def add_reg(r, env, kw=False, boom=False, ip=False):
+        """hand the helper a registry key: the item preparer returns the PRE-EXISTING item registered under it; with
+        keyword edits (spec items) the edited item must be a copy -- also when the collection is edited in place"""
+        kind = env["kind"]
+        pre = _hooked(env)
+        if kw and not kind["spec_items"]:
+            raise NotApplicable("items are not spec instances")
+        edits = {"tag": "edited"} if kw else {}
+        if ip:
+            edits["_inplace"] = True
+        key = RegKey("boom" if boom else "item")
+        if kind["coll"] == "map":
+            return helper(r, "with")("kreg", key, **edits), [pre]
+        return helper(r, "with")(key, **edits), [pre]
+
+    def update_reg(r, env):
+        kind = env["kind"]
+        pre = _hooked(env)
+        if not kind["spec_items"]:
+            raise NotApplicable("items are not spec instances")
+        cur = _current(r, slot)
+        ref = _first_ref(kind, cur)
+        if kind["coll"] == "seq" and not kind["keyed"]:
+            return helper(r, "update")(0, RegKey("item"), _by_index=True, tag="edited"), [pre]
+        return helper(r, "update")(ref, RegKey("item"), tag="edited"), [pre]
+
+    def transform_to_reg(r, env, kw=False, missing=False):
+        """a transform that returns a PRE-EXISTING object (the registered item); with attribute transforms (spec items)
+        the edited item must be a copy.  `missing`: the element looked up does not exist (mappings: a new key)."""
+        kind = env["kind"]
+        pre = _hooked(env)
+        if kw and not kind["spec_items"]:
+            raise NotApplicable("items are not spec instances")
+        edits = {"xs": lambda v: v + [99]} if kw else {}
+        cur = _current(r, slot)
+        if missing:
+            if kind["coll"] != "map":
+                raise NotApplicable("only a mapping can be asked for a new key")
+            return helper(r, "transform")("no-such-key", lambda _v: pre, **edits), [pre]
+        ref = _first_ref(kind, cur)
+        if kind["coll"] == "seq" and (kind["spec_items"] and not kind["keyed"]):
+            return helper(r, "transform")(0, lambda _v: pre, _by_index=True, **edits), [pre]
+        return helper(r, "transform")(ref, lambda _v: pre, **edits), [pre, ref]
+
     out = {
+        f"with_{it}(reg)": add_reg,
+        f"with_{it}(reg,tag=)": functools.partial(add_reg, kw=True),
+        f"update_{it}(first,reg,tag=)": update_reg,
+        f"transform_{it}(first,->reg)": transform_to_reg,
+        f"transform_{it}(first,->reg,xs=)": functools.partial(transform_to_reg, kw=True),
+        f"transform_{it}(missing,->reg,xs=)": functools.partial(transform_to_reg, kw=True, missing=True),
+        f"with_{it}(regboom)!": functools.partial(add_reg, boom=True),
+        f"with_{it}(reg,tag=,inplace)@": functools.partial(add_reg, kw=True, ip=True),
+    } if slot in HOOK_ITEM_SLOTS else {}
+    out.update({
         f"with_{it}(new)": add,
         f"with_{it}(new,front)": insert_front,
         f"with_{it}(existing)": add_existing,
@@ -724,7 +1017,7 @@ def _elem_routes(slot):
         f"update_{it}(first,tag=,inplace)@": functools.partial(update_kw, ip=True),
         f"transform_{it}(first,new,inplace)@": functools.partial(transform, ip=True),
         f"without_{it}(first,inplace)@": functools.partial(remove, ip=True),
-    }
+    })
     return out
 
 
@@ -766,7 +1059,40 @@ def _slot_routes(slot):
         delattr(r, slot)
         return r, []
 
+    def _hooked(env):
+        if not env["sc"].get("hooks") or slot not in HOOK_SLOTS:
+            raise NotApplicable("no attribute preparer")
+        return registry_of(env["sc"])["value"]
+
+    def with_reg(r, env, kw=False, boom=False, ip=False):
+        """hand the helper a registry key: the preparer returns the PRE-EXISTING value registered under it; with
+        keyword edits (nested spec kinds) the edited value must be a copy -- also when it is stored in place"""
+        pre = _hooked(env)
+        if kw and env["sc"]["vk"] not in ("child", "fchild"):
+            raise NotApplicable("not a nested spec instance")
+        edits = {"tag": "edited"} if kw else {}
+        if ip:
+            edits["_inplace"] = True
+        return getattr(r, f"with_{slot}")(RegKey("boom" if boom else "value"), **edits), [pre]
+
+    def transform_to_reg(r, env, kw=False):
+        """a transform that returns a PRE-EXISTING object; with attribute transforms the edited value must be a copy"""
+        pre = _hooked(env)
+        if kw and env["sc"]["vk"] not in ("child", "fchild"):
+            raise NotApplicable("not a nested spec instance")
+        edits = {"xs": lambda v: v + [99]} if kw else {}
+        return getattr(r, f"transform_{slot}")(lambda _v: pre, **edits), [pre]
+
+    hooked = {
+        f"with_{slot}(reg)": with_reg,
+        f"with_{slot}(reg,tag=)": functools.partial(with_reg, kw=True),
+        f"transform_{slot}(->reg)": transform_to_reg,
+        f"transform_{slot}(->reg,xs=)": functools.partial(transform_to_reg, kw=True),
+        f"with_{slot}(regboom)!": functools.partial(with_reg, boom=True),
+        f"with_{slot}(reg,tag=,inplace)@": functools.partial(with_reg, kw=True, ip=True),
+    } if slot in HOOK_SLOTS else {}
     return {
+        **hooked,
         f"with_{slot}(new)": with_,
         f"update_{slot}(new)": update_new,
         f"update_{slot}()": call(f"update_{slot}"),
@@ -859,7 +1185,44 @@ def _outer_routes():
     def c(helper, *a, **k):
         return lambda o, env: (getattr(o, helper)(*a, **k), [])
 
+    def _hooked(env):
+        if not env["sc"].get("hooks"):
+            raise NotApplicable("no preparer hooks")
+        return registry_of(env["sc"])["inst"]
+
+    def reg(helper, *a, boom=False, **k):
+        """hand the helper a registry key: the hook of the outer class returns the PRE-EXISTING instance registered"""
+        def f(o, env):
+            pre = _hooked(env)
+            return getattr(o, helper)(*a, RegKey("boom" if boom else "inst"), **k), [pre]
+        return f
+
+    def to_reg(helper, *a, **k):
+        """a transform that returns the PRE-EXISTING registered instance"""
+        def f(o, env):
+            pre = _hooked(env)
+            return getattr(o, helper)(*a, lambda _v: pre, **k), [pre]
+        return f
+
     return {
+        "outer.with_inner(reg)": reg("with_inner"),
+        "outer.with_inner(reg,label=)": reg("with_inner", label="q"),
+        "outer.with_member(reg)": reg("with_member"),
+        "outer.with_member(reg,label=)": reg("with_member", label="q"),
+        "outer.with_member(reg,m=)": reg("with_member", m=9),
+        "outer.with_table_item(reg,label=)": reg("with_table_item", "kreg", label="q"),
+        "outer.update_member(0,reg,label=)": reg("update_member", 0, _by_index=True, label="q"),
+        "outer.update_table_item(k,reg,label=)": reg("update_table_item", "k", label="q"),
+        "outer.transform_inner(->reg)": to_reg("transform_inner"),
+        "outer.transform_inner(->reg,label=)": to_reg("transform_inner", label=lambda v: v + "!"),
+        "outer.transform_member(0,->reg,label=)": to_reg("transform_member", 0, _by_index=True, label=lambda v: v + "!"),
+        "outer.transform_table_item(k,->reg,label=)": to_reg("transform_table_item", "k", label=lambda v: v + "!"),
+        "outer.transform_table_item(missing,->reg,label=)": to_reg("transform_table_item", "no-such-key", label=lambda v: v + "!"),
+        "outer.with_inner(regboom)!": reg("with_inner", boom=True),
+        "outer.with_member(regboom)!": reg("with_member", boom=True),
+        "outer.with_inner(reg,label=,inplace)@": reg("with_inner", label="q", _inplace=True),
+        "outer.with_member(reg,label=,inplace)@": reg("with_member", label="q", _inplace=True),
+        "outer.update_table_item(k,reg,label=,inplace)@": reg("update_table_item", "k", label="q", _inplace=True),
         "deepcopy(outer)": lambda o, env: (copy.deepcopy(o), []),
         "outer.with_name": c("with_name", "x"),
         "outer.update(name)": c("update", name="y"),
@@ -921,6 +1284,7 @@ def route_kind(name):
     return "fail" if name.endswith("!") else "inplace" if name.endswith("@") else "cow"
 
 
+@functools.lru_cache(maxsize=None)
 def route_slot(name):
     """The slot a route targets (None: none / several)."""
     for slot in sorted(SLOTS, key=len, reverse=True):
@@ -944,6 +1308,7 @@ def reset_targets(name):
     return []
 
 
+@functools.lru_cache(maxsize=None)
 def applies(vk, name):
     """Static filter: element routes only for collection kinds."""
     kind_coll = {"list": "seq", "dict": "map", "set": "set", "klist": "seq", "kset": "set"}.get(vk.split("_")[0])
@@ -1016,6 +1381,9 @@ def describe(sc):
         f"{sc['vk']} family (invalidation: {sc['inv']}; values of size {sc['n']}; {'+'.join(sc['mat']) or 'no'} entries materialised by "
         f"{sc['mode']}; caches {'filled' if sc.get('warm', True) else 'empty'}{'; `vals` aliased under `fvals`' if sc.get('aliased') else ''})"
         + ("" if sc["holder"] == "self" else f", held as `{sc['holder']}` of an outer instance")
+        + ("; class with preparer hooks handing out registered pre-existing objects" if sc.get("hooks") else "")
+        + ("; `vals` holds no value" if sc.get("absent") else "")
+        + (f"; an uncopyable {sc['unc'].get('what', 'lock')} sits in `{sc['unc']['where']}`" if sc.get("unc") else "")
         + (" [after the prelude of earlier calls]" if sc.get("prelude") else "")
     )
 
@@ -1064,6 +1432,60 @@ def run_prelude():
                 pass
 
 
+    _failure_prelude()
+
+
+def _failure_prelude():
+    """Earlier calls that FAILED: one failing call of every kind through the library's copying / helper / constructor
+    paths.  State that a failure leaves behind at module level (a memo of types / classes / attributes that 'could not
+    be copied', a half-restored patch, a cache filled on the way to raising) is in place for whatever runs afterwards."""
+    from spec_classes.utils.mutation import protect_via_deepcopy
+
+    def attempt(fn, *a, **k):
+        try:
+            return fn(*a, **k)
+        except Exception:  # noqa: BLE001
+            return None
+
+    # (1) the library's copy of every container shape holding every kind of uncopyable member (directly and nested)
+    for what in UNC_WHAT:
+        u = uncopyable(what)
+        for v in ([u], {"k": u}, {u}, (u,), frozenset([u]), Box([u]), NT("x", [u]), [[u]], {"k": [u]}, ([u],), [(u,)], bytearray(b"x"), u):
+            attempt(protect_via_deepcopy, v)
+    # (2) helpers, deepcopy and the constructor on (second-generation) instances that hold one: as an undeclared entry
+    #     (every kind of value), inside the value of a slot / of the do_not_copy slot (Any kinds)
+    routes_ = (
+        "deepcopy", "with_label", "update(vals,n)", "reset()", "with_vals(new)", "transform_vals(ident)", "reset_vals", "with_kvals(new)",
+        "with_val(new)", "without_val(first)", "transform_val(0,new,by_index)", "update_val(first,new)", "with_kval(new)", "without_kval(first)",
+    )
+    k = 0
+    for vk in ANY_KINDS + ("list_int", "dict_int", "set_int", "list_spec", "klist_str", "tuple_list", "child"):
+        for where in (UNC_WHERE if vk in ANY_KINDS else UNC_WHERE[:1]):
+            k += 1
+            sc = {"vk": vk, "shape": "base", "frozen": False, "inv": "none", "n": 2, "mode": "ctor", "mat": ["al", "over", "cached"], "gen": 1,
+                  "warm": True, "holder": "self", "route": "-", "unc": {"where": where, "what": UNC_WHAT[k % len(UNC_WHAT)]}}
+            keep = {}
+            r = attempt(make_receiver, sc, 0, keep)
+            if r is None:
+                continue
+            for route in routes_:
+                run_route(dict(sc, route=route), r)
+            cls, _o, kind = family_of(sc)
+            attempt(cls, vals=[keep.get("unc")], pr=kind["mk"](1, 1), kvals=kind["mk"](1, 2))  # the constructor copies its arguments
+    # (3) ill-typed values, raising callbacks, raising preparer hooks, unknown keywords, missing elements
+    for vk in ("list_int", "dict_spec", "klist_spec", "kset_int", "child", "fchild", "tuple_spec"):
+        sc = {"vk": vk, "shape": "base", "frozen": False, "inv": "named", "n": 2, "mode": "ctor", "mat": ["al", "over", "cached"], "gen": 0,
+              "warm": True, "holder": "self", "route": "-", "hooks": True}
+        r = attempt(make_receiver, sc)
+        if r is None:
+            continue
+        for route in ("with_label(bad)!", "transform(label=boom)!", "update(label,n=bad)!", "with_vals(bad)!", "transform_vals(boom)!", "with_vals(regboom)!",
+                      "with_val(bad)!", "transform_val(first,boom)!", "without_val(missing)!", "with_val(regboom)!"):
+            run_route(dict(sc, route=route), r)
+        attempt(type(r), nosuch=1)
+        attempt(lambda: r.update(nosuch=1))
+
+
 def ensure_prelude(sc):
     if sc.get("prelude") and not _PRELUDE_DONE[0]:
         run_prelude()
@@ -1081,6 +1503,8 @@ def _c01_roots(sc, root, keep):
     out += class_roots(cls)
     if sc["holder"] != "self":
         out += class_roots(family_of(sc)[0])
+    # what a preparer hook of the class hands to the library is a value handed in on the caller's behalf
+    out += [(f"the pre-existing object `{k}` handed out by the preparer hooks", v) for k, v in registry_of(sc).items()]
     return out
 
 
@@ -1143,6 +1567,13 @@ def judge_c01(sc, line_fault=None):
 
 
 def _c01_line_faults(sc, root, roots, before, line_fault):
+    try:
+        return _c01_line_faults_run(sc, root, roots, before, line_fault)
+    finally:
+        rebuild_registry(sc)  # (a cut may leave a registered object half-edited: the next scenario gets new ones)
+
+
+def _c01_line_faults_run(sc, root, roots, before, line_fault):
     import random
 
     made = []
@@ -1202,13 +1633,22 @@ def judge_c07(sc):
         except Exception as e:  # noqa: BLE001  (constructor / copy-on-write helpers building the state)
             outcomes.append(("state-raises:" + H.exc_name(e), None))
             continue
+        # pre-existing frozen instances the preparer hooks hand out (the nested frozen item class is frozen on both sides)
+        reg_frozen = [o for pre in registry_of(s).values() for o in _frozen_instances(pre)]
+        reg_before = [(snapshot(o), view_content(o)) for o in reg_frozen]
         if frozen:
             tracked = _frozen_instances(root)
             before = [snapshot(o) for o in tracked]
-            root_before = snapshot(root)
         status, res, handed, exc = run_route(s, root)
         if status == "n/a":
             return "n/a", []
+        for o, (b, bv) in zip(reg_frozen, reg_before):
+            if not _deep_same(b, snapshot(o)) or view_content(o) != bv:
+                out.append(
+                    f"{describe(s)} ({status}) changed a pre-existing frozen instance of {type(o).__name__} that a preparer hook / "
+                    f"transform of the {'frozen class' if frozen else 'twin'} had handed out"
+                )
+                break
         if kind_of_route == "inplace" and not frozen:
             outcomes.append((status, None))  # the twin only shows whether the in-place call is valid at all
             continue
@@ -1346,6 +1786,9 @@ def judge_c08(sc):
         view_ids(o, allowed, iface=False)
     # the argument given for the do_not_copy attribute is shared by design
     view_ids(args.get("kvals"), allowed, iface=False)
+    # objects a preparer hook of the class hands out are shared by the user's own doing
+    for pre in registry_of(sc).values():
+        view_ids(pre, allowed, iface=False)
     derived = []
     if status == "ok" and res is not a and _is_inst(res):
         roots.append(("the derived instance", res))
@@ -1416,6 +1859,81 @@ def judge_c08(sc):
 
 
 # ---------------------------------------------------------------------------
+# judge C02: a derived copy shares no mutable object with the instance it was derived from
+# ---------------------------------------------------------------------------
+
+
+def _targets_kvals(route):
+    return route_slot(route) == "kvals" or route.startswith("reset(") or "kvals" in route
+
+
+@quiet
+def judge_c02(sc):
+    """From the property text: the instance a copy-on-write route (or deepcopy) returns shares no mutable object with
+    the instance it was derived from -- at any depth, also inside tuples / named tuples / frozensets / plain objects /
+    keyed containers, through `__dict__` AND through the attribute interface -- except objects the caller handed to
+    that call (argument values, and the pre-existing objects the class's own preparer hooks / the transform hand
+    out) and values of attributes declared do_not_copy, which are carried by identity; and no in-place change of a
+    mutable object of one side is visible through the other."""
+    ensure_prelude(sc)
+    if route_kind(sc["route"]) != "cow":
+        return "n/a", []
+    try:
+        root, target = make_root(sc)
+    except NotApplicable:
+        return "n/a", []
+    status, res, handed, _exc = run_route(sc, root)
+    if status != "ok":
+        return status, []
+    if res is root:
+        return "same", []  # (update_<a>() without arguments and the like: nothing was derived)
+    if not _is_inst(res):
+        return "n/a", []
+    out = []
+    allowed = {}
+    for o in handed:
+        view_ids(o, allowed, iface=False)
+    for pre in registry_of(sc).values():
+        view_ids(pre, allowed, iface=False)
+    _dnc_ids(root, allowed)
+    allowed = real_ids(allowed)
+    # ---- (ii) do_not_copy attributes are carried by identity (the do_not_copy slot of every family is `kvals`)
+    if sc["holder"] == "self" and type(res) is type(root) and not _targets_kvals(sc["route"]) and "kvals" in root.__dict__:
+        v = root.__dict__["kvals"]
+        if not isinstance(v, _SC) and res.__dict__.get("kvals") is not v:
+            out.append(f"{describe(sc)}: the do_not_copy attribute `kvals` was not carried into the copy by identity")
+    # ---- (i) no common mutable object: first through `__dict__`s only, then through the attribute interface as well
+    for iface in (False, True):
+        r_ids, s_ids = view_ids(res, iface=iface), view_ids(root, iface=iface)
+        shared = [o for i, o in real_ids(r_ids).items() if i in s_ids and i not in allowed]
+        if shared:
+            kinds = sorted({type(o).__name__ for o in shared})
+            how = "through their attributes, " if iface else ""
+            out.append(f"{describe(sc)}: {how}the result and the instance it was derived from hold {len(shared)} common mutable object(s) ({kinds})")
+            return status, out
+    # ---- (iii) in-place changes of one side are invisible through the other
+    for side, other, ids in (("result", root, r_ids), ("original", res, s_ids)):
+        before = view_content(other)
+        objs = [o for i, o in real_ids(ids).items() if i not in allowed and not (type(o) in (list, dict) and _storage_of_keyed(o, ids))]
+        undos = [probe_mutate(o) for o in objs]
+        moved = view_content(other) != before
+        for u in reversed(undos):
+            u()
+        if moved:
+            culprit = ""
+            for o in objs:
+                undo = probe_mutate(o)
+                m = view_content(other) != before
+                undo()
+                if m:
+                    culprit = f" (a {type(o).__name__})"
+                    break
+            out.append(f"{describe(sc)}: an in-place change of an object{culprit} of the {side} is visible through the other instance")
+            return status, out
+    return status, out
+
+
+# ---------------------------------------------------------------------------
 # scenario generation
 # ---------------------------------------------------------------------------
 
@@ -1425,11 +1943,15 @@ def _twist(k, seq):
     return seq[k % len(seq)]
 
 
+def _is_hook_route(name):
+    return "reg" in name.split("(", 1)[-1]
+
+
 def core_scenarios(kinds=("cow", "fail"), frozen=False, holders=True):
     """Systematic part: every value kind x every route (of the given kinds) with every entry materialised, the other
-    dimensions (class shape, invalidation flavour, size, materialisation mode, generation, cache state) cycling so that
-    every pair (value of a dimension, route) and (value of a dimension, value kind) occurs; then every holder shape x
-    outer route x value kind."""
+    dimensions (class shape, invalidation flavour, size, materialisation mode, generation, cache state, preparer hooks,
+    `vals` without a value, an uncopyable member in the state) cycling so that every pair (value of a dimension, route)
+    and (value of a dimension, value kind) occurs; then every holder shape x outer route x value kind."""
     k = 0
     names = route_names("self", kinds)
     for vk in VALUE_KINDS:
@@ -1437,21 +1959,38 @@ def core_scenarios(kinds=("cow", "fail"), frozen=False, holders=True):
             if not applies(vk, route):
                 continue
             k += 1
-            yield {
+            sc = {
                 "vk": vk, "shape": _twist(k, SHAPES), "frozen": frozen, "inv": _twist(k // 2, INVS), "n": (2, 0, 2, 1)[k % 4],
                 "mode": _twist(k // 3, MODES), "mat": ["al", "over", "cached", "scratch"], "gen": (0, 1, 0, 2)[(k // 5) % 4],
                 "warm": bool((k // 7) % 2 == 0), "holder": "self", "route": route, "aliased": (k // 11) % 3 == 0,
             }
+            if _is_hook_route(route) or (k // 13) % 4 == 0:
+                sc["hooks"] = True
+            if (k // 17) % 6 == 0 or "missing,->reg" in route:
+                sc["absent"] = True
+            if (k // 3) % 8 == 0:  # an uncopyable member: as an undeclared entry (any kind), inside `vals` / `kvals` (Any kinds)
+                where = _twist(k // 24, UNC_WHERE if vk in ANY_KINDS else UNC_WHERE[:1])
+                if not (where == "vals" and sc.get("absent")):
+                    sc["unc"] = {"where": where, "what": _twist(k // 48, UNC_WHAT)}
+            yield sc
+            if _is_hook_route(route) and route_slot(route) == "vals" and "missing" not in route:
+                # a hook / transform handing out a pre-existing object: with and without a current value of `vals`
+                yield {**{k_: v for k_, v in sc.items() if k_ not in ("absent", "unc")}, **({} if sc.get("absent") else {"absent": True})}
     if holders:
         onames = route_names("outer", kinds)
         for vk in VALUE_KINDS:
             for route in onames:
                 k += 1
-                yield {
+                sc = {
                     "vk": vk, "shape": _twist(k, SHAPES), "frozen": frozen, "inv": _twist(k // 2, INVS), "n": (2, 0)[k % 2],
                     "mode": _twist(k // 3, MODES), "mat": ["al", "over", "cached"], "gen": k % 2, "warm": bool(k % 3),
                     "holder": _twist(k // 4, HOLDERS[1:]), "route": route,
                 }
+                if _is_hook_route(route) or (k // 5) % 4 == 0:
+                    sc["hooks"] = True
+                if (k // 7) % 10 == 0:
+                    sc["unc"] = {"where": "scratch", "what": _twist(k // 7, UNC_WHAT)}
+                yield sc
 
 
 def invalidation_scenarios(kinds=("cow",), frozen=False):
@@ -1476,11 +2015,20 @@ def random_scenario(rng, kinds=("cow", "fail"), frozen=False):
     vk = rng.choice(VALUE_KINDS)
     names = [r for r in route_names(holder, kinds) if holder != "self" or applies(vk, r)]
     mat = [e for e in MATERIALISABLE if rng.random() < 0.6]
-    return {
+    sc = {
         "vk": vk, "shape": rng.choice(SHAPES), "frozen": frozen, "inv": rng.choice(INVS), "n": rng.choice((0, 1, 2, 3)),
         "mode": rng.choice(MODES), "mat": mat, "gen": rng.choice((0, 0, 1, 2, 3)), "warm": rng.random() < 0.6, "holder": holder,
         "route": rng.choice(names), "aliased": rng.random() < 0.25,
     }
+    if _is_hook_route(sc["route"]) or rng.random() < 0.25:
+        sc["hooks"] = True
+    if rng.random() < 0.1 or "missing,->reg" in sc["route"]:
+        sc["absent"] = True
+    if rng.random() < 0.15:
+        where = rng.choice(UNC_WHERE if vk in ANY_KINDS and holder == "self" else UNC_WHERE[:1])
+        if not (where == "vals" and sc.get("absent")):
+            sc["unc"] = {"where": where, "what": rng.choice(UNC_WHAT)}
+    return sc
 
 
 def minimise(sc, judge):
@@ -1496,8 +2044,13 @@ def minimise(sc, judge):
         smaller = [e for e in cur["mat"] if e != entry]
         if bad(dict(cur, mat=smaller)):
             cur = dict(cur, mat=smaller)
+    for key in ("unc", "absent", "hooks", "aliased"):
+        if cur.get(key):
+            smaller = {k: v for k, v in cur.items() if k != key}
+            if bad(smaller):
+                cur = smaller
     for key, value in (("gen", 0), ("holder", "self"), ("shape", "base"), ("inv", "none"), ("warm", True), ("mode", "ctor"), ("n", 2), ("aliased", False)):
-        if cur.get(key) != value and (key != "holder" or cur["route"] in routes("self")) and bad(dict(cur, **{key: value})):
+        if cur.get(key, value) != value and (key != "holder" or cur["route"] in routes("self")) and bad(dict(cur, **{key: value})):
             cur = dict(cur, **{key: value})
     if cur["holder"] == "self":
         for route in ("deepcopy", "with_label", "with_m", "with_vals(new)", f"with_{_singular('vals')}(new)"):
@@ -1505,6 +2058,46 @@ def minimise(sc, judge):
                 cur = dict(cur, route=route)
                 break
     return cur
+
+
+def reproduces_alone(case, timeout=120):
+    """Re-judge a case in a NEW interpreter (what `./check Cxx --replay f` does): True / False / None (could not tell).
+    A violation seen in the middle of a sweep may be the after-effect of an earlier scenario in the same process."""
+    import json
+    import os
+    import subprocess
+    import sys
+
+    code = (
+        "import sys, json; sys.path.insert(0, %r); import common; common.use_repo(); import heap_shapes as HS; "
+        "print('VERDICT', 'violation' if HS.judge_case(json.loads(sys.stdin.read())) else 'clean')" % os.path.dirname(os.path.abspath(__file__))
+    )
+    try:
+        r = subprocess.run([sys.executable, "-c", code], input=json.dumps(case), capture_output=True, text=True, timeout=timeout)
+    except Exception:  # noqa: BLE001
+        return None
+    if "VERDICT violation" in r.stdout:
+        return True
+    if "VERDICT clean" in r.stdout:
+        return False
+    return None
+
+
+def _self_contained_first(violations, budget=4):
+    """Order the violations of a sweep so that one that reproduces on its own (fresh interpreter; if need be after the
+    prelude of earlier -- also failed -- calls) comes first: that is the case written to the replay file."""
+    tried = 0
+    for i, v in enumerate(violations):
+        if tried >= budget:
+            break
+        for case in (v["case"], {**v["case"], "sc": dict(v["case"]["sc"], prelude=True)}):
+            if case is not v["case"] and v["case"]["sc"].get("prelude"):
+                continue
+            tried += 1
+            if reproduces_alone(case):
+                first = dict(v, case=case)
+                return [first] + violations[:i] + violations[i + 1:]
+    return violations
 
 
 def sweep(judge, scenarios, tag, max_report=3):
@@ -1526,7 +2119,7 @@ def sweep(judge, scenarios, tag, max_report=3):
         if status == "n/a":
             continue
         evaluations += 1
-        keys.append((tag, sc["vk"], sc["shape"], sc["frozen"], sc["inv"], sc["n"], sc["mode"], tuple(sc["mat"]), sc["gen"], sc.get("warm", True), sc["holder"], sc["route"], bool(sc.get("prelude")), bool(sc.get("aliased")), bool(sc.get("outer_plain"))))
+        keys.append((tag, sc["vk"], sc["shape"], sc["frozen"], sc["inv"], sc["n"], sc["mode"], tuple(sc["mat"]), sc["gen"], sc.get("warm", True), sc["holder"], sc["route"], bool(sc.get("prelude")), bool(sc.get("aliased")), bool(sc.get("outer_plain")), bool(sc.get("hooks")), bool(sc.get("absent")), H.dumps(sc.get("unc"))))
         if v:
             if len(violations) < max_report:
                 small = minimise(sc, judge)
@@ -1535,6 +2128,15 @@ def sweep(judge, scenarios, tag, max_report=3):
                     if v2:
                         sc, v = small, v2
             violations.append({"case": {"shapes": tag, "sc": sc}, "violation": v})
+    if violations and max_report:
+        violations = _self_contained_first(violations)
+        first = violations[0]
+        small = minimise(first["case"]["sc"], judge)  # (no-op for a scenario that was reduced already)
+        if small != first["case"]["sc"]:
+            case = dict(first["case"], sc=small)
+            v2 = judge(small)[1]
+            if v2 and reproduces_alone(case):
+                violations[0] = {"case": case, "violation": v2}
     return evaluations, keys, violations, hist
 
 
@@ -1542,12 +2144,13 @@ def sweep(judge, scenarios, tag, max_report=3):
 # the `extra()` sections of corr_C01 / corr_C07 / corr_C08
 # ---------------------------------------------------------------------------
 
-JUDGES = {"C01": judge_c01, "C07": judge_c07, "C08": judge_c08}
+JUDGES = {"C01": judge_c01, "C02": judge_c02, "C07": judge_c07, "C08": judge_c08}
 _PLAN = {
     # pid: (route kinds, frozen families?, holders?, stride of the systematic part in the quick tier, random scenarios quick / thorough)
-    "C01": (("cow", "fail"), False, True, 6, 300, 8000),
-    "C07": (("cow", "fail", "inplace"), True, True, 14, 200, 5000),
-    "C08": (("cow", "inplace"), False, False, 9, 250, 5000),
+    "C01": (("cow", "fail"), False, True, 8, 280, 8000),
+    "C02": (("cow",), False, True, 8, 220, 6000),
+    "C07": (("cow", "fail", "inplace"), True, True, 16, 180, 5000),
+    "C08": (("cow", "inplace"), False, False, 10, 220, 5000),
 }
 
 
@@ -1576,7 +2179,10 @@ def _random_for(pid, rng):
 
 def random_case(pid, rng):
     """One random scenario as a case (for the `search` generators: escalation and soak runs)."""
-    return {"shapes": pid, "sc": dict(_random_for(pid, rng), prelude=rng.random() < 0.5)}
+    while True:
+        sc = _random_for(pid, rng)
+        if not (EXCLUDE_KNOWN_TRANSFORM_MISSING.get(pid) and known_transform_missing_shape(sc)):
+            return {"shapes": pid, "sc": dict(sc, prelude=rng.random() < 0.5)}
 
 
 def plan(pid, tier, rng):
@@ -1588,6 +2194,8 @@ def plan(pid, tier, rng):
     if tier == "quick":
         core = core[rng.randrange(stride) :: stride]
     scenarios = core + [_random_for(pid, rng) for _ in range(n_quick if tier == "quick" else n_thorough)]
+    if EXCLUDE_KNOWN_TRANSFORM_MISSING.get(pid):
+        scenarios = [sc for sc in scenarios if not known_transform_missing_shape(sc)]
     rng.shuffle(scenarios)  # the ORDER of the calls in this process varies with the seed
     if pid == "C08":  # in-place probing (on top of the identity check) for every third scenario
         scenarios = [dict(sc, probe=(i % 3 == 0)) for i, sc in enumerate(scenarios)]
@@ -1612,7 +2220,22 @@ def known_restore_crash_shape(sc):
     route = sc["route"]
     if route in ("update(vals,n)", "update(label,n=bad)!", "transform_kvals(ident)"):
         return True
+    if any(route in (f"with_{slot}(reg)", f"transform_{slot}(->reg)") for slot in HOOK_SLOTS):
+        return True  # (the whole conforming KeyedList is the registered object a preparer hook / the transform hands out)
     return any(route == f"{pre}_{slot}(new)" for pre in ("with", "update", "transform") for slot in SLOTS)
+
+
+# KF-C07-transform-edits-returned-object (found by wave w5, FIXED in /repo 5dd14f2): `transform_<attr>(f, **attr_transforms)` on
+# a spec-typed attribute that holds NO value default-constructed the value (marking it `mutate_safe`), applied `f`, and
+# then applied the attribute transforms IN PLACE (inside `thawed`) to whatever `f` returned -- a pre-existing, possibly
+# frozen, instance when `f` looks one up.  The shape is part of the generated scenarios of every property again (a
+# regression is an ordinary violation); corpus `harness/corpus/C07/kf_transform_edits_returned_object.json`.
+EXCLUDE_KNOWN_TRANSFORM_MISSING = {"C01": False, "C02": False, "C07": False, "C08": False}
+
+
+def known_transform_missing_shape(sc):
+    """`transform_vals(<returns a registered pre-existing instance>, xs=...)` while `vals` (typed with a spec class) holds no value."""
+    return bool(sc.get("absent")) and sc["vk"] in ("child", "fchild") and sc["route"] == "transform_vals(->reg,xs=)"
 
 
 def extra_section(pid, tier, rng):
